@@ -86,7 +86,7 @@ func c14(args []string) error {
 	}
 
 	ncert := 0
-	maxcert := 40
+	maxcert := 80
 	if g.n > 4000 {
 		maxcert = 600
 	}
@@ -151,7 +151,7 @@ func c14(args []string) error {
 			continue
 		}
 		x := res{l1: []int{}, l2: []int{}, rowsN: []string{}, rowsS: []string{}}
-		kind := r.Intn(19)
+		kind := r.Intn(21)
 		switch kind {
 		case 0:
 			var m map[uint8]int64
@@ -366,6 +366,105 @@ func c14(args []string) error {
 				x.num = "0"
 			}
 			add(alpha, names, seqs, "NumMutationsComparedToReferenceSequence", fmt.Sprintf("OpMutVsRef %s %s", coqZ(ri), coqZ(si)), x)
+		case 19, 20:
+			// position-specific scoring matrix: all normalisations, log, dyadic pseudo counts
+			if nseq == 0 || L == 0 {
+				continue
+			}
+			if alpha == align.UNKNOWN {
+				alpha = align.NUCLEOTIDS
+				if a, e = mkAlign(alpha, names, seqs); e != nil {
+					continue
+				}
+			}
+			if r.Intn(2) == 0 {
+				// taller columns over the alphabet's own characters
+				nseq = 4 + r.Intn(12)
+				names = distinctNames(r, nseq)
+				seqs = make([]string, nseq)
+				pool := "ACGTacgtN-"
+				if alpha == align.AMINOACIDS {
+					pool = "ARNDCQEGHILKMFPSTWYVX-a"
+				}
+				pool = pool[:2+r.Intn(len(pool)-1)]
+				for k := range seqs {
+					seqs[k] = randSeq(r, L, func(r *rand.Rand) byte { return pool[r.Intn(len(pool))] })
+				}
+				if a, e = mkAlign(alpha, names, seqs); e != nil {
+					continue
+				}
+			}
+			lg := r.Intn(3) == 0
+			pcs := []struct {
+				f float64
+				q string
+			}{{0, "(0 # 1)"}, {0.5, "(1 # 2)"}, {1, "(1 # 1)"}, {0.25, "(1 # 4)"}, {0, "(0 # 1)"}}
+			pc := pcs[r.Intn(len(pcs))]
+			norm := r.Intn(5)
+			if r.Intn(25) == 0 {
+				norm = []int{-1, 5, 7}[r.Intn(3)]
+			}
+			chars := "ACGT"
+			if alpha == align.AMINOACIDS {
+				chars = "ARNDCQEGHILKMFPSTWYV"
+			}
+			var mat map[uint8][]float64
+			agree := 1
+			nnan := 0
+			x.class, _ = guarded(5e9, func() error {
+				m, e := a.Pssm(lg, pc.f, norm)
+				if e != nil {
+					return e
+				}
+				mat = m
+				for rep := 0; rep < 20; rep++ {
+					m2, e2 := a.Pssm(lg, pc.f, norm)
+					if e2 != nil {
+						agree = 0
+						continue
+					}
+					for _, c := range []byte(chars) {
+						for j := range m[c] {
+							if math.Float64bits(m[c][j]) != math.Float64bits(m2[c][j]) {
+								agree = 0
+							}
+						}
+					}
+				}
+				for _, c := range []byte(chars) {
+					for _, v := range m[c] {
+						if math.IsNaN(v) {
+							nnan++
+						}
+					}
+				}
+				return nil
+			})
+			if x.class == OutOk {
+				x.l1 = []int{agree}
+				x.num = fmt.Sprint(nnan)
+			}
+			opterm := fmt.Sprintf("OpPssm %s %s%%Q %s", coqBool(lg), pc.q, coqZ(norm))
+			add(alpha, names, seqs, "Pssm", opterm, x)
+			if x.class == OutOk && ncert < maxcert {
+				// certify two finite entries against the real-valued definition
+				for t := 0; t < 2; t++ {
+					c := chars[r.Intn(len(chars))]
+					j := r.Intn(L)
+					v := mat[c][j]
+					if math.IsNaN(v) || math.IsInf(v, 0) {
+						continue
+					}
+					fmt.Fprintf(&certs, "(* CERT %d *)\nDefinition case_%d : case := %s.\nLemma cert_%d : cert_pssm case_%d %s %d %s %s.\nProof. cert_pssm_tac. Qed.\n",
+						ncert, ncert, w.terms[len(w.terms)-1], ncert, ncert, coqByte(c), j, realLit(v), realLit(1e-9*(1+math.Abs(v))))
+					certMeta = append(certMeta, map[string]interface{}{"cert": ncert, "case_idx": w.n() - 1, "go_value": v, "names": names, "seqs": seqs,
+						"char": string(c), "site": j, "log": lg, "pseudocount": pc.f, "normalization": norm})
+					ncert++
+					if ncert%10 == 0 {
+						flushCerts()
+					}
+				}
+			}
 		case 17, 18:
 			// lists of mutations relative to a reference holding several gap runs (several insertions)
 			if nseq < 1 {
